@@ -86,6 +86,9 @@ class LG:
             (f"{m}", "constant-body"), (f"'s{m}'", "constant-body"), (f"{p}.js{m}.Select(lambda j: {m})", "nested-constant-body"),
             # f-strings (tokenised into several tokens since python 3.12): literal parts with blanks, format specs, conversions
             (f"{p}.g(f'AntiKt{{{p}.a{m}}}EM  Topo{m}')", "fstring"), (f"{p}.g(f'{{{p}.a{m}=}} and {{ {p}.b = }}')", "fstring-equals"), (f"{p}.g(f'{{{p}.a{m}:03d}}|{{{p}.b!r:>8}}| lambda {p}: (')", "fstring-spec"),
+            # ... whose literal pieces are nothing but a bracket, a comma, a semicolon, a colon
+            (f"{p}.g(f'{{{p}.a{m}}})')", "fstring-bracket-pieces"), (f"{p}.g(f'({{{p}.a{m}}}', f'{{{p}.b}};{{{p}.c}}')", "fstring-bracket-pieces"), (f"{p}.g(f'[{{{p}.a{m}}},{{{p}.b}}]', f'{{{p}.c}}:')", "fstring-bracket-pieces"),
+            (f"{p}.g(f'{{{p}.a{m}}}}}}}', f'{{{{{{{p}.b}}')", "fstring-bracket-pieces"),
             (f"{p}.h{m}(f\"{{{p}.a{m}}}\" + f'x{{{p}.js{m}.Select(lambda j: j.pt)}}y')", "fstring-nested-lambda"), (f"{p}.js{m}.Where(lambda {p}: {p}.pt > {m}).Select(lambda q: (q.a, q.b))", "two-nested"),
         ]
         if multiline:
@@ -297,6 +300,13 @@ class LG:
                 # ... or two lambdas that differ in nothing but a default value (no part of the code python keeps)
                 d1, d2 = r.choice([("1", "2"), ("-1", "-2"), ("(1, 2)", "(3, 4)"), ("LO", "HI"), ("1", "LO"), ("'a'", "'b'")])
                 return t, False, True, f"r = with_flag(lambda {p}, *, k_={d1}: {p}.f(k_), ds).Select(lambda {p}, *, k_={d2}: {p}.f(k_))", "default-only-difference"
+            if r.random() < 0.3:
+                # ... or in constants that compare equal and are different values (1 / True / 1.0, 0.0 / -0.0): as the whole body
+                # (python keeps no position for it), or inside an ordinary body (no positions under -X no_debug_ranges)
+                c1, c2 = r.choice([("1", "True"), ("True", "1"), ("1", "1.0"), ("0", "False"), ("0.0", "-0.0"), ("2.0", "2"), ("(1, 2)", "(1.0, 2)")])
+                w1, w2 = r.choice([("{c}", "{c}"), ("{p}.f({c})", "{p}.f({c})"), ("{p}.a + {c}", "{p}.a + {c}"), ("({p}.a, {c})", "({p}.a, {c})")])
+                x1, x2 = w1.format(p=p, c=c1), w2.format(p=p, c=c2)
+                return t, False, True, r.choice([f"r = with_flag(lambda {p}: {x1}, ds).Select(lambda {p}: {x2})", f"r = with_flag(lambda {p}: {x1}, ds.Select(lambda {p}: {x2}))"]), "equal-comparing-constants"
             return t, False, True, r.choice([f"r = with_flag(lambda {p}: {self.k}, ds).Select(lambda {p}: {b1})", f"r = with_flag(lambda {p}: {self.k}, ds.Select(lambda {p}: {b1}))",
                                              f"r = with_flag(lambda {p}: 's{self.k}', ds.Select(lambda {p}: {b1}).Select(lambda {p}: {self.k}))"]), "constant-body"
         if t == "backslash_string_decoy":
